@@ -18,17 +18,39 @@ from ..terms import A, I, V, C, NIL, lst, clause, call, and_, or_, then, not_, c
 REPO = os.environ.get("YLDPROLOG_REPO", "/repo")
 
 CHILD = r'''
-import sys, json, hashlib, io, contextlib
+import sys, json, hashlib, io, contextlib, os, tempfile
 sys.path.insert(0, sys.argv[1])
-from yldprolog.compiler import compile_prolog_from_string
+from yldprolog.compiler import compile_prolog_from_string, compile_prolog_from_file, CompilerContext
 progs = json.load(open(sys.argv[2]))
 order = json.loads(sys.argv[3])
 out = []
+
+
+def compile_entry(p):
+    # a program is a text (compiled from a string with the default options) or {"text", "mode"}:
+    # mode "file": compile_prolog_from_file with the default options; mode "named": from a string with options of the
+    # application's own that switch debug_filename on (derived from CompilerContext, as its docstring suggests)
+    if isinstance(p, str):
+        return compile_prolog_from_string(p)
+    if p["mode"] == "file":
+        fd, path = tempfile.mkstemp(suffix=".prolog")
+        try:
+            with os.fdopen(fd, "w", encoding="utf-8") as f:
+                f.write(p["text"])
+            return compile_prolog_from_file(path)
+        finally:
+            os.unlink(path)
+    class Opts(CompilerContext):
+        debug_filename = True
+        outf = io.StringIO()
+    return Opts.outf.getvalue() + compile_prolog_from_string(p["text"], Opts)
+
+
 for step in order:
     idx, record = step
     try:
         with contextlib.redirect_stderr(io.StringIO()):
-            text = compile_prolog_from_string(progs[idx])
+            text = compile_entry(progs[idx])
         sha = hashlib.sha256(text.encode("utf-8", "surrogatepass")).hexdigest()
     except Exception as e:
         sha = "EXC:" + type(e).__name__
@@ -64,6 +86,11 @@ def programs(rnd, n):
     fixed.append("colour(pair('red,green')).\nshape('point(1,2)').\nl(['x,y']).\ng('f(a)') :- h(k('a,b')).\n")
     fixed.append("both(pair('red,green'), pair(red,green)) :- t(['x,y'],[x,y]), t([x,y],['x,y']).\n")
     out.extend(fixed)
+    # the same texts through the other entry points and with options of the application's own: the output for a
+    # (text, entry point, options) triple may not depend on what was compiled before through another one
+    for t in fixed[:4]:
+        out.append({"text": t, "mode": "file"})
+        out.append({"text": t, "mode": "named"})
     # compilations that raise at different stages (syntax, visitor, code generation of an expression,
     # generator limits): whatever they leave behind must not change later outputs
     poison = ["p(X, foo/2).\n", "p(X) :- q(Y, %s).\n" % ("9" * 5000), "cat(tom) :- 1.\n", "a(X) :- b(X),, c(X).\n", "'two words'(X) :- q(X).\n",
@@ -76,7 +103,8 @@ def programs(rnd, n):
             out.append(poison[i]); i += 1
             continue
         s = gen.random_scenario(rnd, {"ctl", "meta", "cut", "db", "dyn"}, nclauses=3, depth=3)
-        out.append(render_script(s["scripts"]["P"], "minimal"))
+        text = render_script(s["scripts"]["P"], "minimal")
+        out.append(text if len(out) % 9 else {"text": text, "mode": ("file", "named")[(len(out) // 9) % 2]})
     return out
 
 
